@@ -1,8 +1,11 @@
 SPECIFICATION Spec
 CONSTANTS
   MaxChunks = 4
-  Kinds = {"import", "vargroup", "func", "method", "stmt", "block", "flit", "flitres"}
+  Kinds = {"package", "import", "vargroup", "func", "method", "stmt", "block", "flit", "flitres"}
   Variants = {"plain"}
   FuncExprIsDecl = FALSE
+  ParenIsNesting = FALSE
+  ImportIsDecl = FALSE
+  TrailingCommentStays = FALSE
 INVARIANTS WantIsStatement CodeKeepsBytes SplitSane CodeMeetsStatement Export
 PROPERTY Terminates
